@@ -89,6 +89,32 @@ def run(tier, replay):
         jobs.append(c02.dline("%s.%d.%d.d%d" % (ent["name"], il, m, n), ent["name"], il, m, win, rng.randrange(1, 2 ** 31), 3))
     # every cascade path of every daughter level, each into a brand-new event object (reallocation while filling)
     jobs += [l_ for (l_, m_) in c02.cascade_jobs(S, rng, 1)]
+    # the beta-spectrum samplers at the edges of their energy range: the first beta call of a witness path gets its first trial
+    # energy steered to the lowest / highest energies (interpolation tables of the shape factors, Fermi function at 50 eV)
+    BETA_ = ("beta", "beta1", "beta2", "beta_1fu")
+    seen_b = set()
+    for base, chain in S.bkg_names(port_only=True).items():
+        k0 = chain[0][0]
+        for (_ei, p_) in S.witness_paths(k0):
+            first = None
+            for e_i in p_:
+                for it in S.data[k0]["edges"][e_i]["items"]:
+                    if it[0] == "call":
+                        first = it
+                        break
+                if first:
+                    break
+            if not first or first[1] not in BETA_:
+                continue
+            sig_ = (first[1],) + tuple(first[2][:2]) + tuple(first[2][5:])
+            if sig_ in seen_b:
+                continue
+            seen_b.add(sig_)
+            if not thorough and len(seen_b) > 150:
+                break
+            for u1_ in (1e-12, 1e-9, 1e-6, 1e-4, 1e-3, 5e-3, 0.02, 0.5, 1 - 1e-6, 1 - 1e-12):
+                n += 1
+                jobs.append(sch.bjob("%s.b%d" % (base, n), pub.get(base, base), 7000 + n, [S.plan(k0, p_)], betaplan=[u1_, 1e-12, 0.5, 1e-12]))
     # the first-lepton table at its edges: trial energies steered into the first bins (deviates 1e-9 ... 1e-3 of the end point) and the
     # last ones, for every mode that samples from the table; the logged bin of every trial is checked by TraceBB (1 <= k <= 4300)
     for (iso_, il_, modes_) in (("Mo100", 0, (1, 2, 3, 4, 5, 6, 13, 14, 15, 17, 18, 19)), ("Mo100", 1, (7, 8, 16)), ("Cd106", 0, (10,)), ("Ca48", 0, (1, 4))):
@@ -99,7 +125,8 @@ def run(tier, replay):
     nsh = 8
 
     def shard(i):
-        rc, out = vlib.sh([exe, "--bb-trace", os.path.join(wd, "bb%d.ndjson" % i)], input="\n".join(jobs[i::nsh]) + "\n", timeout=2400, env=env)
+        rc, out = vlib.sh([exe, "--bb-trace", os.path.join(wd, "bb%d.ndjson" % i), "--ix-trace", os.path.join(wd, "ix%d.ndjson" % i)],
+                          input="\n".join(jobs[i::nsh]) + "\n", timeout=2400, env=env)
         res = [l for l in out.splitlines() if l.startswith("{")]
         return rc, len(res), out
     nres = 0
@@ -114,6 +141,26 @@ def run(tier, replay):
                              {"jobs_done": cnt, "shard": jobs[i::nsh][:3]})
     ck.add("evaluations", nres)
     ck.set("generation_jobs_under_sanitizers", len(jobs))
+    # ---- 2b. the table subscripts the code noted (interpolation tables): inside their tables (spec/Index.tla)
+    ixl = []
+    for i in range(nsh):
+        f_ = os.path.join(wd, "ix%d.ndjson" % i)
+        if os.path.exists(f_):
+            ixl += [l_ for l_ in open(f_).read().splitlines() if l_.strip()]
+    if not ixl:
+        raise vlib.InfraError("no table subscript was noted by the library (hook in divdif.cc missing?)")
+    ixf = os.path.join(wd, "ix_all.ndjson")
+    open(ixf, "w").write("\n".join(ixl) + "\n")
+    ri = vlib.tlc("Index", "Index.cfg", workers=1, env={"TRACE": ixf}, timeout=300)
+    if ri.error:
+        raise vlib.InfraError("Index: " + ri.error)
+    ck.tlc_stats(ri, "Index(noted table subscripts)")
+    ck.set("table_subscripts_noted", sum(json.loads(l_)["count"] for l_ in ixl))
+    if ri.violated or ri.depth < len(ixl):
+        bad = ixl[min(ri.depth, len(ixl) - 1)]
+        ck.violation("index:out-of-table:" + "%s:%s" % (json.loads(bad)["base"], json.loads(bad)["n"]),
+                     "a table subscript noted by the code lies outside its table (base, size, smallest and largest subscript of the run): %s" % bad,
+                     {"line": bad})
     # ---- 3. the logged table index of every first-lepton trial
     for i in range(nsh):
         tf = os.path.join(wd, "bb%d.ndjson" % i)
